@@ -559,10 +559,19 @@ def oracle(ctx: Ctx) -> OracleResult:
             res.failures.append(Failure('strict-kex-filler-not-fatal',
                                         f'{o["role"]} {o["phase"]}: type {o["t"]} during the initial strict exchange '
                                         f'gave {o["reaction"]}', key))
+        # nothing but key exchange (and, outside strict KEX, the three filler types) may be acted upon while the
+        # receiver has no receive keys yet: such a message is unauthenticated
+        if o['variant'] != 'then-kexinit' and not o['flags']['renc'] and o['reaction'] == 'accepted' and \
+                not (o['t'] in (20, 21) or 30 <= o['t'] <= 49 or (o['t'] in (2, 3, 4) and not o['flags']['strict'])):
+            res.failures.append(Failure(f'cleartext-message-accepted-before-encryption:type{o["t"]}',
+                                        f'{o["role"]} in {o["phase"]} (strict={o["strict"]}, own NEWKEYS sent='
+                                        f'{o["flags"]["nready"]}) accepted unauthenticated message type {o["t"]} '
+                                        f'before its receive keys were in use', key))
     res.nontrivial = len(set((o['role'], o['phase'], o['strict'], o['t']) for o in outs if 'reaction' in o))
     res.histogram = dict(hist)
     res.samples = [{k: o[k] for k in ('role', 'phase', 'strict', 't', 'variant', 'reaction') if k in o} for o in outs[:4]]
-    res.rule = 'as the correspondence; failure = an application callback fired (or filler survived strict KEX) because of the injected message'
+    res.rule = ('as the correspondence; failure = an application callback fired (or filler survived strict KEX) because of '
+                'the injected message, or a non-kex message was accepted while the receiver had no receive keys')
     return res
 
 
